@@ -21,7 +21,7 @@ for e in idx:
     env = dict(os.environ); env["VERIF_REPO"] = scratch
     c = subprocess.run(["./check", e["property"], "--tier", "quick"], cwd=V, env=env, stdout=subprocess.PIPE, stderr=subprocess.STDOUT, text=True)
     sigs = [l.strip() for l in c.stdout.splitlines() if l.strip().startswith("signature:")]
-    ok = c.returncode == 1
+    ok = c.returncode == 1 and ("VIOLATION property=%s " % e["property"]) in c.stdout
     print("%s %-4s rc=%d unit-tests: %s | %s | %s" % ("ok " if ok else "MISSED", e["property"], c.returncode, t.strip()[:40], e["what"], "; ".join(sigs[:2])[:200]), flush=True)
     if not ok:
         bad.append(e["patch"])
